@@ -98,11 +98,22 @@ RD_VARIANTS = {
 }
 
 CFGSETS = {
-    # plain: (wu, it, cts) triples; filt: (filters, it) pairs; rd: (variant, it, wu); none_id; patch_orders
-    "full": {
+    # plain: (wu, it, cts) triples; filt: (filters, it) pairs; rd: (variant, it, wu); rdfilt: filters combined with the
+    # default RenameDetector; none_id: also pass None for
+    # an empty side; patch: "all" = every permutation of <=3 changes (else 4 fixed orders), "two" = the 4 fixed orders
+    "full": {  # everything about single transitions
+        "plain": CUBE,
+        "filt": [(f, it) for f in F1 for it in (False, True)],
+        "rd": [(v, it, wu) for v in ("default", "find_copies_harder", "rewrite_threshold") for it in (False, True) for wu in (False, True)],
+        "rdfilt": F1,
+        "none_id": True,
+        "patch": "all",
+    },
+    "filters2": {  # everything incl. two-element path filters (thorough, shapes)
         "plain": CUBE,
         "filt": [(f, it) for f in F1 + F2 for it in (False, True)],
         "rd": [(v, it, wu) for v in ("default", "find_copies_harder", "rewrite_threshold") for it in (False, True) for wu in (False, True)],
+        "rdfilt": F1 + F2,
         "none_id": True,
         "patch": "all",
     },
@@ -110,13 +121,23 @@ CFGSETS = {
         "plain": CUBE,
         "filt": [(f, False) for f in F1],
         "rd": [("default", False, False), ("default", True, False), ("default", False, True)],
+        "rdfilt": F1,
         "none_id": True,
+        "patch": "all",
+    },
+    "cube": {
+        "plain": CUBE,
+        "filt": [],
+        "rd": [("default", False, False)],
+        "rdfilt": [],
+        "none_id": False,
         "patch": "all",
     },
     "lean": {
         "plain": [(False, False, False), (False, True, True)],
         "filt": [],
         "rd": [("default", False, False)],
+        "rdfilt": [],
         "none_id": False,
         "patch": "two",
     },
@@ -124,6 +145,7 @@ CFGSETS = {
         "plain": [(False, False, False)],
         "filt": [],
         "rd": [(v, it, False) for v in ("default", "find_copies_harder", "rewrite_threshold") for it in (False, True)],
+        "rdfilt": [],
         "none_id": False,
         "patch": "two",
     },
@@ -131,24 +153,23 @@ CFGSETS = {
 
 
 def families(quick):
-    """name -> (max entries per listing, kinds, config set).  Every family is the FULL square of its
-    listing set."""
+    """[(name, max entries per listing, kinds, config set)].  Every family is the FULL square (all ordered
+    pairs) of its listing set; the bounds are sized by measured cost (~0.2 ms per tree_changes call)."""
     if quick:
         return [
-            ("kinds1", 1, ALL8, "full"),
-            ("two", 2, ("fX", "fY", "lX"), "mid"),
-            ("shapes", 3, ("fX",), "mid"),
-            ("three", 3, ("fX", "fY"), "lean"),
-            ("similar", 2, ("fX", "fZ"), "similar"),
+            ("kinds1", 1, ALL8, "full"),  # 65 listings: every kind -> kind transition, file <-> dir
+            ("shapes", 3, ("fX",), "mid"),  # 69 listings: every shape pair, one kind (=> renames everywhere)
+            ("two", 2, ("fX", "fY", "lX"), "lean"),  # 241 listings
+            ("similar", 2, ("fX", "fZ"), "similar"),  # 113 listings: inexact renames
         ]
     return [
-        ("kinds1", 1, ALL8, "full"),
-        ("two", 2, ("fX", "fY", "lX", "g1"), "mid"),
-        ("shapes", 3, ("fX",), "full"),
-        ("three", 3, ("fX", "fY"), "mid"),
-        ("two-allkinds", 2, ALL8, "lean"),
-        ("three-types", 3, ("fX", "fY", "lX"), "lean"),
-        ("similar", 2, ("fX", "fZ", "fY"), "similar"),
+        ("kinds1", 1, ALL8, "filters2"),
+        ("shapes", 3, ("fX",), "filters2"),
+        ("two", 2, ("fX", "fY", "lX"), "mid"),
+        ("two-kinds5", 2, ("fX", "fY", "xX", "lX", "g1"), "lean"),  # 641 listings
+        ("three", 3, ("fX", "fY"), "cube"),  # 401 listings
+        ("three-types", 3, ("fX", "lX"), "lean"),  # 401 listings
+        ("similar", 2, ("fX", "fZ", "fY"), "similar"),  # 241 listings
     ]
 
 
@@ -325,7 +346,7 @@ def needed_gitkeys(cfg):
 class Info:
     """Reference view of one listing."""
 
-    __slots__ = ("L", "built", "tid", "fa", "fta", "dirs")
+    __slots__ = ("L", "built", "tid", "fa", "fta", "dirs", "fta_root")
 
     def __init__(self, L):
         self.L = L
@@ -334,6 +355,8 @@ class Info:
         self.fa = gt.flat(L)
         self.fta = gt.flat_with_trees(L, self.built)
         self.dirs = {p: t[0] for p, t in self.built.trees.items()}
+        self.fta_root = dict(self.fta)
+        self.fta_root[b""] = (gt.DIR, self.tid)
         if gt.apply_records({}, gt.raw_diff({}, self.fa)) != self.fa:
             raise HarnessError("reference model: apply(diff({}, L)) != L")
 
@@ -556,8 +579,6 @@ def malformed(got, allow_rename):
             return "modify-across-paths"
         if t == "unchanged" and o != n:
             return "unchanged-with-different-sides"
-        if t in ("rename", "copy") and o[0] == n[0]:
-            return "rename-onto-itself"
     return None
 
 
@@ -602,8 +623,30 @@ def unrename(got):
     return recs, sorted(unch)
 
 
-def classify(got, exp_recs, exp_unch, ia, ib, it, cts, wu, filters, allow_rename):
-    """Slow path: why does `got` not satisfy the statement?  -> predicate or None."""
+def strip_root(got, ta, tb, it, wu):
+    """With include_trees dulwich also reports the root tree itself, as the entry with path b"" (the
+    convention of iter_tree_contents(include_trees=True)); git has no such line.  It is accepted -
+    not demanded - when it is exactly the pair of root ids; anything else about path b"" is a problem."""
+    rest = []
+    problem = None
+    seen = 0
+    for c in got:
+        t, o, n = c
+        if (o is not None and o[0] == b"") or (n is not None and n[0] == b""):
+            seen += 1
+            ro = None if ta is None else (b"", gt.DIR, ta)
+            rn = None if tb is None else (b"", gt.DIR, tb)
+            want_t = "add" if ro is None else "delete" if rn is None else ("unchanged" if ro == rn else "modify")
+            if not it or (o, n) != (ro, rn) or t != want_t or (t == "unchanged" and not wu) or seen > 1:
+                problem = "root-entry-wrong"
+            continue
+        rest.append(c)
+    return rest, problem
+
+
+def classify(got, exp_recs, exp_unch, ia, ib, it, cts, wu, filters, allow_rename, root=False):
+    """Slow path: why does `got` not satisfy the statement?  -> predicate or None.
+    root=True: the root tree (path b"") counts as an ordinary tree entry on both sides."""
     bad = malformed(got, allow_rename)
     if bad:
         return "malformed:" + bad
@@ -612,13 +655,24 @@ def classify(got, exp_recs, exp_unch, ia, ib, it, cts, wu, filters, allow_rename
         return "path-mentioned-twice-on-old-side"
     if len(set(news)) != len(news):
         return "path-mentioned-twice-on-new-side"
-    fa = ia.fta if it else ia.fa
-    fb = ib.fta if it else ib.fa
+    fa = (ia.fta_root if root else ia.fta) if it else ia.fa
+    fb = (ib.fta_root if root else ib.fta) if it else ib.fa
     for t, o, n in got:
         if o is not None and fa.get(o[0]) != (o[1], o[2]):
             return "old-side-not-in-first-tree" + ("(tree-entry)" if gt.is_dir_mode(o[1]) else "")
         if n is not None and fb.get(n[0]) != (n[1], n[2]):
             return "new-side-not-in-second-tree" + ("(tree-entry)" if gt.is_dir_mode(n[1]) else "")
+    if filters is not None:
+        for t, o, n in got:
+            for side in (o, n):
+                if side is not None and not gt.matches(side[0], filters, gt.is_dir_mode(side[1])):
+                    return "reports-change-outside-path-filter"
+    for t, o, n in got:
+        if t in ("rename", "copy"):
+            if (o[1] & gt.IFMT) != (n[1] & gt.IFMT):
+                return "%s-across-file-types" % t
+            if not gt.is_dir_mode(o[1]) and o[2] != n[2] and {o[2], n[2]} != {X, Z}:
+                return "%s-between-contents-that-share-nothing" % t
     # the statement's patch oracle
     target = dict(ib.fa)
     if filters is not None:
@@ -790,13 +844,14 @@ def eval_pair(acc, st, cfg, ia, ib, gitres, k):
             return None
         recs, unch = ref(it, filters)
         exp = expected_changes(recs, unch if wu else (), cts)
+        got, rootp = strip_root(got, ta, tb, it, wu)
         try:
             same = sorted(got, key=_ck) == exp
         except TypeError:
             same = False
-        if same:
+        if same and not rootp:
             return got
-        pred = classify(got, recs, unch, ia, ib, it, cts, wu, filters, False) or "differs-from-git-raw-diff:other"
+        pred = rootp or classify(got, recs, unch, ia, ib, it, cts, wu, filters, False) or "differs-from-git-raw-diff:other"
         viol("diff", site, flags, pred, "tree_changes(%s) = %r, want %r" % (", ".join("%s=%r" % kv for kv in sorted(kw.items())), got, exp))
         return None
 
@@ -841,7 +896,15 @@ def eval_pair(acc, st, cfg, ia, ib, gitres, k):
             acc.outcome("P:rd:raises")
             continue
         recs, unch = ref(it, None)
-        pred = classify(got, recs, unch, ia, ib, it, False, wu, None, True)
+        root = it and any((o is not None and o[0] == b"") or (n is not None and n[0] == b"") for _t, o, n in got)
+        if root:  # the root tree reported like any other tree entry (accepted, not demanded)
+            if ia.tid != ib.tid:
+                recs = [(b"", (gt.DIR, ia.tid), (gt.DIR, ib.tid))] + recs
+            else:
+                unch = [(b"", (gt.DIR, ia.tid), (gt.DIR, ia.tid))] + unch
+        pred = classify(got, recs, unch, ia, ib, it, False, wu, None, True, root=root)
+        if any(t == "copy" and o[0] == n[0] for t, o, n in got):
+            acc.outcome("P:rd:%s:copy-onto-its-own-path" % variant)
         if pred:
             viol("diff", "RenameDetector", flags, pred, "changes_with_renames = %r; plain diff %r" % (got, recs))
         gk = gitkey_rd(variant, it)
@@ -850,6 +913,21 @@ def eval_pair(acc, st, cfg, ia, ib, gitres, k):
         kinds = sorted({t for t, _o, _n in got if t in ("rename", "copy")})
         if not wu and not it:
             acc.outcome("P:rd:%s:finds:%s" % (variant, "+".join(kinds) or "nothing"))
+
+    # ---- rename detection combined with a path filter
+    for filters in cfg["rdfilt"]:
+        flags = flagstr(impl, filt=True, rd="default")
+        acc.count("diff_evaluations")
+        try:
+            rd = DT.RenameDetector(store)
+            got = norm_changes(DT.tree_changes(store, ia.tid, ib.tid, rename_detector=rd, paths=list(filters)))
+        except Exception as e:  # noqa: BLE001
+            viol("diff", "RenameDetector", flags, "raises-" + exc_name(e), repr(e)[:200])
+            continue
+        recs, unch = ref(False, filters)
+        pred = classify(got, recs, unch, ia, ib, False, False, False, filters, True)
+        if pred:
+            viol("diff", "RenameDetector", flags, pred, "tree_changes(rename_detector, paths=%r) = %r; filtered plain diff %r" % (list(filters), got, recs))
 
     # ---- patching: commit_tree_changes(A, changes) == tree of B
     changes = [(p, None, None) if n is None else (p, n[0], n[1]) for p, o, n in recs0]
@@ -992,7 +1070,7 @@ def run(ctx):
             N = len(listings(n, kinds))
             sizes[name] = N
             total_pairs += N * N
-            per_pair = len(CFGSETS[cfgname]["plain"]) + len(CFGSETS[cfgname]["filt"]) + 2 * len(CFGSETS[cfgname]["rd"]) + 4
+            per_pair = len(CFGSETS[cfgname]["plain"]) + len(CFGSETS[cfgname]["filt"]) + 2 * len(CFGSETS[cfgname]["rd"]) + len(CFGSETS[cfgname]["rdfilt"]) + 4
             rows_per_task = max(1, min(N, int(25000 / (N * per_pair)) or 1))
             rows = ctx.order(range(N))
             for i in range(0, N, rows_per_task):
@@ -1034,7 +1112,7 @@ def run(ctx):
             "listing_max_entries": nmax, "listings": len(Ls), "paths": len(PATHS), "kinds": len(ALL8),
             "families": {f[0]: {"max_entries": f[1], "kinds": list(f[2]), "configs": f[3], "listings": sizes[f[0]], "pairs": sizes[f[0]] ** 2} for f in fams},
             "pairs_per_pass": total_pairs // 2, "passes": list(IMPLS),
-            "config_sets": {k: {"plain": len(v["plain"]), "filters": len(v["filt"]), "rename": len(v["rd"]), "patch_orders": v["patch"]} for k, v in CFGSETS.items()},
+            "config_sets": {k: {"plain": len(v["plain"]), "filters": len(v["filt"]), "rename": len(v["rd"]), "rename_x_filters": len(v["rdfilt"]), "patch_orders": v["patch"]} for k, v in CFGSETS.items()},
         },
     )
     ctx.coverage["rust_build"] = {k: v for k, v in paths.items()}
